@@ -13,6 +13,11 @@
      4. visit_line: when the text of the line is the empty string: _flush_comment();
      5. visit_end_of_line (only between lines): current line += 1 + line feeds inside string literals of the line.
    At the end of the text parse() calls flush() once more (fix 754220d) and read() calls finalize().
+   Errors: a raise while a statement is visited gets the current line; a raise while the queued attribute is constructed
+   gets the line remembered with it (fix beef4c7); an error that comes out of a nested read() already has a path and keeps
+   its line or absence of line (fix e846190); finalize() errors have no line.
+   Proofs about this machine: Basics.v, LineProofs.v, Mirror.v, Blank.v, Extra.v, Accept.v, RenderProofs.v, ReaderProofs.v,
+   PrintProofs.v; declarative spec: Spec.v; canonical text: Render.v; namespace reader: Reader.v.
 
    Payloads are abstract:  T - a type as written (already resolved), V - an evaluated constant value,
    D - a reference to a dependency, W - the world threaded through dependency reads and @print deliveries. *)
